@@ -13,7 +13,7 @@ M == 524287
 R == INSTANCE C03_Rcmgr WITH Conns <- <<>>, Streams <- <<>>, Spans <- <<>>, Peers <- {}, Protos <- {}, Svcs <- {},
        Eps <- {}, EpIP <- <<>>, EpBuckets <- <<>>, Cap <- <<>>, AllowNet <- {}, AllowPeer <- {}, Lim <- <<>>, Inf <- M,
        Sizes <- {}, Prios <- {}, Dirs <- {}, Fds <- {}, ViewScopes <- {}, Kinds <- {}, Threads <- <<"t1">>,
-       Sequential <- TRUE, Preload <- <<>>, w <- x, op <- x
+       Sequential <- TRUE, RetryGhost <- FALSE, Preload <- <<>>, w <- x, op <- x
 
 \* symbolic values: <<base, offset>> with base "0" (absolute), "L" (the limit), "M" (MaxInt)
 Val(v, L) == (IF v[1] = "0" THEN 0 ELSE IF v[1] = "L" THEN L ELSE M) + v[2]
